@@ -43,7 +43,7 @@ theorem sp_sendQueued (s : Sess) : SP s (sendQueued s) := by
   · exact SP.refl s
 
 theorem sp_prep (s : Sess) (m : OutMsg) : SP s (prep s m).2 := by
-  unfold prep
+  unfold prep prepCore
   simp only []
   split
   · split
@@ -117,7 +117,7 @@ theorem sp_queueForSend (s : Sess) (m : OutMsg) : SP s (queueForSend s m) := by
 theorem sp_sendInReplyTo (s : Sess) (m : OutMsg) : SP s (sendInReplyTo s m) := by
   unfold sendInReplyTo
   split
-  · exact sp_queueForSend s m
+  · exact sp_queueForSend s _
   · have hp := sp_prep s m
     generalize prep s m = r at hp
     obtain ⟨o, s'⟩ := r
@@ -144,6 +144,8 @@ theorem speel_dropAndSend (m : OutMsg) (h : SP s x) : SP s (dropAndSend x m) := 
 theorem speel_enqueueAndSend (m : OutMsg) (h : SP s x) : SP s (enqueueAndSend x m) := h.trans (sp_enqueueAndSend x m)
 theorem speel_dropAndReset (h : SP s x) : SP s (dropAndReset x) := h.trans (sp_dropAndReset x)
 theorem speel_sendLogonInReplyTo (r : Bool) (h : SP s x) : SP s (sendLogonInReplyTo x r) := h.trans (sp_dropAndSend x _)
+theorem speel_sendLogonRe (r : Bool) (m : InMsg) (h : SP s x) : SP s (sendLogonRe x r m) := h.trans (sp_dropAndSend x _)
+theorem speel_setReplyLast (v : Option Int) (h : SP s x) : SP s (x.setReplyLast v) := h.trans (SP.of_eq rfl rfl)
 theorem speel_sendLogout (h : SP s x) : SP s (sendLogout x) := h.trans (sp_sendInReplyTo x _)
 theorem speel_initiateLogout (h : SP s x) : SP s (initiateLogout x) := h.trans (sp_sendInReplyTo x _)
 theorem speel_doReject (m : InMsg) (r : Nat) (t : Option Nat) (b : Bool) (h : SP s x) : SP s (doReject x m r t b) :=
@@ -157,6 +159,8 @@ macro_rules | `(tactic| sp_step) => `(tactic| apply speel_dropAndSend)
 macro_rules | `(tactic| sp_step) => `(tactic| apply speel_enqueueAndSend)
 macro_rules | `(tactic| sp_step) => `(tactic| apply speel_dropAndReset)
 macro_rules | `(tactic| sp_step) => `(tactic| apply speel_sendLogonInReplyTo)
+macro_rules | `(tactic| sp_step) => `(tactic| apply speel_sendLogonRe)
+macro_rules | `(tactic| sp_step) => `(tactic| apply speel_setReplyLast)
 macro_rules | `(tactic| sp_step) => `(tactic| apply speel_sendLogout)
 macro_rules | `(tactic| sp_step) => `(tactic| apply speel_initiateLogout)
 macro_rules | `(tactic| sp_step) => `(tactic| apply speel_doReject)
@@ -318,7 +322,7 @@ theorem sp_inSessionFixMsgIn (s : Sess) (m : InMsg) : SP s (inSessionFixMsgIn s 
     generalize handleLogon s m = r at hl
     obtain ⟨s', o⟩ := r
     cases o with
-    | some e => exact speel_initiateLogout hl
+    | some e => exact speel_sendInReplyTo ((mkOut "5" []).inReplyTo m) hl
     | none => exact hl
   · split
     · exact sp_handleLogout s m
@@ -372,9 +376,9 @@ theorem sp_resendFixMsgIn (s : Sess) (stash : List (Int × InMsg)) (cur fin : In
     | exact h1.trans (sp_sRR_eq (by assumption))
     | exact h1.trans (sp_drain_eq (by assumption))
 
-theorem sp_shutdownWithReason (s : Sess) (incr : Bool) : SP s (shutdownWithReason s incr).1 := by
+theorem sp_shutdownWithReason (s : Sess) (m : InMsg) (incr : Bool) : SP s (shutdownWithReason s m incr).1 := by
   unfold shutdownWithReason
-  show SP s (if incr = true then incrTarget (dropAndSend s (mkOut "5" [])) else dropAndSend s (mkOut "5" []))
+  show SP s (if incr = true then incrTarget (dropAndSend s ((mkOut "5" []).inReplyTo m)) else dropAndSend s ((mkOut "5" []).inReplyTo m))
   sp_peel
 
 theorem sp_handleLogon_eq {s : Sess} {m : InMsg} {r : Sess × Option LogonErr} (hr : handleLogon s m = r) : SP s r.1 := by
@@ -390,7 +394,7 @@ theorem sp_logonFixMsgIn (s : Sess) (m : InMsg) : SP s (logonFixMsgIn s m).1 := 
       have hh := sp_handleLogon_eq (by assumption : handleLogon s m = _)
       first
         | exact hh
-        | exact hh.trans (sp_shutdownWithReason _ _)
+        | exact hh.trans (sp_shutdownWithReason _ _ _)
         | exact hh.trans (sp_sRR_eq (by assumption)))
 
 theorem sp_fixMsgInCore (s : Sess) (m : InMsg) : SP s (fixMsgInCore s m).1 := by
@@ -505,6 +509,15 @@ theorem sp_stopNext (s : Sess) : SP s (stopNext s).1 := by
   all_goals (try dsimp only)
   all_goals sp_peel
 
+theorem speel_setLastChecked {s x : Sess} (n : Int) (h : SP s x) : SP s (x.setLastChecked n) := h.trans (SP.of_eq rfl rfl)
+macro_rules | `(tactic| sp_step) => `(tactic| apply speel_setLastChecked)
+
+theorem sp_checkResetTime (s : Sess) (now : Int) : SP s (checkResetTime s now) := by
+  unfold checkResetTime
+  repeat' split
+  all_goals (try dsimp only)
+  all_goals sp_peel
+
 theorem sp_stepCore (s : Sess) (e : Ev) : SP s (stepCore s e).1 := by
   obtain ⟨hS, hD, hI, hC⟩ := sp_mutual (fuelOf s)
   unfold stepCore
@@ -548,6 +561,7 @@ theorem sp_stepCore (s : Sess) (e : Ev) : SP s (stepCore s e).1 := by
     have h1 := hC s true true
     split <;> sp_peel
   | sessionTime r sm => exact hC s r sm
+  | resetTime now => exact sp_checkResetTime s now
 
 theorem sp_step (s : Sess) (e : Ev) : SP s (step s e).1 := by
   unfold step
